@@ -25,6 +25,7 @@ import (
 type ctxKey int
 
 const OpKey ctxKey = 1
+const txKey ctxKey = 2
 
 // OpID extracts the harness operation id that a driver put into the context.
 func OpID(ctx context.Context) int {
@@ -45,7 +46,8 @@ type Call struct {
 	Client string
 	Err    string // "" ok, otherwise short class
 	Write  bool
-	Tx     bool // inside an open transaction of this op
+	Tx     bool // inside an open transaction (the call carried the transaction's context)
+	Outside bool // a write performed while a transaction is open but WITHOUT the transaction's context
 	Inject string
 }
 
@@ -92,6 +94,7 @@ type IStore struct {
 
 	// transaction state (DB mode; sequential use only)
 	txOpen   bool
+	txID     interface{}
 	txSnap   *snapshot
 	TxEvents []string // begin, commit-ok, commit-fail, rollback-ok, rollback-fail, write-ok, write-fail (per op, reset by ResetCalls)
 }
@@ -184,7 +187,9 @@ func (s *IStore) enter(ctx context.Context, method string, req fosite.Requester,
 	s.mu.Lock()
 	s.seq++
 	c.Seq = s.seq
-	c.Tx = s.txOpen
+	marked := ctx.Value(txKey) != nil && ctx.Value(txKey) == s.txID
+	c.Tx = s.txOpen && marked
+	c.Outside = s.txOpen && !marked && c.Write
 	pre := s.Pre
 	s.mu.Unlock()
 	if pre != nil {
@@ -205,14 +210,31 @@ func (s *IStore) leave(c *Call, err error) {
 	if s.Tap != nil {
 		s.Tap(*c)
 	}
-	if c.Write && c.Tx {
-		if err == nil {
+	if c.Tx && c.Method != "Commit" && c.Method != "Rollback" && c.Method != "BeginTX" {
+		switch {
+		case c.Write && err == nil:
 			s.TxEvents = append(s.TxEvents, "write-ok")
-		} else {
+		case c.Write:
 			s.TxEvents = append(s.TxEvents, "write-fail")
+		case err != nil && c.Inject != "":
+			s.TxEvents = append(s.TxEvents, "read-fail")
 		}
 	}
 	s.mu.Unlock()
+}
+
+// exec performs a write on the live tables and, when the write was issued outside the open transaction (it
+// did not carry the transaction's context), also on the snapshot: a database applies such a write at once and
+// a later rollback of the transaction does not undo it.
+func (s *IStore) exec(c *Call, f func(m *storage.MemoryStore) error) error {
+	err := f(s.Mem)
+	if err == nil && c.Outside && s.txSnap != nil {
+		_ = f(s.txSnap.asStore())
+		s.mu.Lock()
+		s.TxEvents = append(s.TxEvents, "write-outside-tx:"+c.Method)
+		s.mu.Unlock()
+	}
+	return err
 }
 
 // ---- deep copies (DB mode) ------------------------------------------------
@@ -334,7 +356,7 @@ func (s *IStore) SetClientAssertionJWT(ctx context.Context, jti string, exp time
 		s.leave(c, e)
 		return e
 	}
-	err := s.Mem.SetClientAssertionJWT(ctx, jti, exp)
+	err := s.exec(c, func(m *storage.MemoryStore) error { return m.SetClientAssertionJWT(ctx, jti, exp) })
 	s.leave(c, err)
 	return err
 }
@@ -347,7 +369,7 @@ func (s *IStore) CreateAuthorizeCodeSession(ctx context.Context, code string, re
 		s.leave(c, e)
 		return e
 	}
-	err := s.Mem.CreateAuthorizeCodeSession(ctx, code, s.in(req))
+	err := s.exec(c, func(m *storage.MemoryStore) error { return m.CreateAuthorizeCodeSession(ctx, code, s.in(req)) })
 	s.leave(c, err)
 	return err
 }
@@ -369,7 +391,7 @@ func (s *IStore) InvalidateAuthorizeCodeSession(ctx context.Context, code string
 		s.leave(c, e)
 		return e
 	}
-	err := s.Mem.InvalidateAuthorizeCodeSession(ctx, code)
+	err := s.exec(c, func(m *storage.MemoryStore) error { return m.InvalidateAuthorizeCodeSession(ctx, code) })
 	s.leave(c, err)
 	return err
 }
@@ -382,7 +404,7 @@ func (s *IStore) CreatePKCERequestSession(ctx context.Context, sig string, req f
 		s.leave(c, e)
 		return e
 	}
-	err := s.Mem.CreatePKCERequestSession(ctx, sig, s.in(req))
+	err := s.exec(c, func(m *storage.MemoryStore) error { return m.CreatePKCERequestSession(ctx, sig, s.in(req)) })
 	s.leave(c, err)
 	return err
 }
@@ -404,7 +426,7 @@ func (s *IStore) DeletePKCERequestSession(ctx context.Context, sig string) error
 		s.leave(c, e)
 		return e
 	}
-	err := s.Mem.DeletePKCERequestSession(ctx, sig)
+	err := s.exec(c, func(m *storage.MemoryStore) error { return m.DeletePKCERequestSession(ctx, sig) })
 	s.leave(c, err)
 	return err
 }
@@ -417,7 +439,7 @@ func (s *IStore) CreateAccessTokenSession(ctx context.Context, sig string, req f
 		s.leave(c, e)
 		return e
 	}
-	err := s.Mem.CreateAccessTokenSession(ctx, sig, s.in(req))
+	err := s.exec(c, func(m *storage.MemoryStore) error { return m.CreateAccessTokenSession(ctx, sig, s.in(req)) })
 	s.leave(c, err)
 	return err
 }
@@ -439,7 +461,7 @@ func (s *IStore) DeleteAccessTokenSession(ctx context.Context, sig string) error
 		s.leave(c, e)
 		return e
 	}
-	err := s.Mem.DeleteAccessTokenSession(ctx, sig)
+	err := s.exec(c, func(m *storage.MemoryStore) error { return m.DeleteAccessTokenSession(ctx, sig) })
 	s.leave(c, err)
 	return err
 }
@@ -452,7 +474,7 @@ func (s *IStore) CreateRefreshTokenSession(ctx context.Context, sig, accessSig s
 		s.leave(c, e)
 		return e
 	}
-	err := s.Mem.CreateRefreshTokenSession(ctx, sig, accessSig, s.in(req))
+	err := s.exec(c, func(m *storage.MemoryStore) error { return m.CreateRefreshTokenSession(ctx, sig, accessSig, s.in(req)) })
 	s.leave(c, err)
 	return err
 }
@@ -461,6 +483,12 @@ func (s *IStore) GetRefreshTokenSession(ctx context.Context, sig string, sess fo
 	c, e := s.enter(ctx, "GetRefreshTokenSession", nil, sig)
 	if e != nil {
 		s.leave(c, e)
+		if errors.Is(e, fosite.ErrInactiveToken) {
+			// the storage contract: ErrInactiveToken comes together with the stored request
+			if r, _ := s.Mem.GetRefreshTokenSession(ctx, sig, sess); r != nil {
+				return s.out(r), e
+			}
+		}
 		return nil, e
 	}
 	r, err := s.Mem.GetRefreshTokenSession(ctx, sig, sess)
@@ -477,7 +505,7 @@ func (s *IStore) DeleteRefreshTokenSession(ctx context.Context, sig string) erro
 		s.leave(c, e)
 		return e
 	}
-	err := s.Mem.DeleteRefreshTokenSession(ctx, sig)
+	err := s.exec(c, func(m *storage.MemoryStore) error { return m.DeleteRefreshTokenSession(ctx, sig) })
 	s.leave(c, err)
 	return err
 }
@@ -488,7 +516,7 @@ func (s *IStore) RotateRefreshToken(ctx context.Context, requestID, sig string) 
 		s.leave(c, e)
 		return e
 	}
-	err := s.Mem.RotateRefreshToken(ctx, requestID, sig)
+	err := s.exec(c, func(m *storage.MemoryStore) error { return m.RotateRefreshToken(ctx, requestID, sig) })
 	s.leave(c, err)
 	return err
 }
@@ -499,7 +527,7 @@ func (s *IStore) RevokeRefreshToken(ctx context.Context, requestID string) error
 		s.leave(c, e)
 		return e
 	}
-	err := s.Mem.RevokeRefreshToken(ctx, requestID)
+	err := s.exec(c, func(m *storage.MemoryStore) error { return m.RevokeRefreshToken(ctx, requestID) })
 	s.leave(c, err)
 	return err
 }
@@ -510,7 +538,7 @@ func (s *IStore) RevokeAccessToken(ctx context.Context, requestID string) error 
 		s.leave(c, e)
 		return e
 	}
-	err := s.Mem.RevokeAccessToken(ctx, requestID)
+	err := s.exec(c, func(m *storage.MemoryStore) error { return m.RevokeAccessToken(ctx, requestID) })
 	s.leave(c, err)
 	return err
 }
@@ -536,7 +564,7 @@ func (s *IStore) CreateOpenIDConnectSession(ctx context.Context, code string, re
 		s.leave(c, e)
 		return e
 	}
-	err := s.Mem.CreateOpenIDConnectSession(ctx, code, s.in(req))
+	err := s.exec(c, func(m *storage.MemoryStore) error { return m.CreateOpenIDConnectSession(ctx, code, s.in(req)) })
 	s.leave(c, err)
 	return err
 }
@@ -558,7 +586,7 @@ func (s *IStore) DeleteOpenIDConnectSession(ctx context.Context, code string) er
 		s.leave(c, e)
 		return e
 	}
-	err := s.Mem.DeleteOpenIDConnectSession(ctx, code)
+	err := s.exec(c, func(m *storage.MemoryStore) error { return m.DeleteOpenIDConnectSession(ctx, code) })
 	s.leave(c, err)
 	return err
 }
@@ -615,7 +643,7 @@ func (s *IStore) MarkJWTUsedForTime(ctx context.Context, jti string, exp time.Ti
 		s.leave(c, e)
 		return e
 	}
-	err := s.Mem.MarkJWTUsedForTime(ctx, jti, exp)
+	err := s.exec(c, func(m *storage.MemoryStore) error { return m.MarkJWTUsedForTime(ctx, jti, exp) })
 	s.leave(c, err)
 	return err
 }
@@ -631,7 +659,7 @@ func (s *IStore) CreatePARSession(ctx context.Context, uri string, req fosite.Au
 	if s.Mode.DB {
 		req = CloneRequester(req).(fosite.AuthorizeRequester)
 	}
-	err := s.Mem.CreatePARSession(ctx, uri, req)
+	err := s.exec(c, func(m *storage.MemoryStore) error { return m.CreatePARSession(ctx, uri, req) })
 	s.leave(c, err)
 	return err
 }
@@ -656,7 +684,7 @@ func (s *IStore) DeletePARSession(ctx context.Context, uri string) error {
 		s.leave(c, e)
 		return e
 	}
-	err := s.Mem.DeletePARSession(ctx, uri)
+	err := s.exec(c, func(m *storage.MemoryStore) error { return m.DeletePARSession(ctx, uri) })
 	s.leave(c, err)
 	return err
 }
@@ -672,7 +700,7 @@ func (s *IStore) CreateDeviceAuthSession(ctx context.Context, devSig, userSig st
 	if s.Mode.DB {
 		req = CloneRequester(req).(fosite.DeviceRequester)
 	}
-	err := s.Mem.CreateDeviceAuthSession(ctx, devSig, userSig, req)
+	err := s.exec(c, func(m *storage.MemoryStore) error { return m.CreateDeviceAuthSession(ctx, devSig, userSig, req) })
 	s.leave(c, err)
 	return err
 }
@@ -716,7 +744,7 @@ func (s *IStore) InvalidateDeviceCodeSession(ctx context.Context, sig string) er
 			s.mu.Unlock()
 		}
 	}
-	err := s.Mem.InvalidateDeviceCodeSession(ctx, sig)
+	err := s.exec(c, func(m *storage.MemoryStore) error { return m.InvalidateDeviceCodeSession(ctx, sig) })
 	s.leave(c, err)
 	return err
 }
@@ -737,6 +765,14 @@ type snapshot struct {
 	UserCodesRequestIDs    map[string]string
 	PARSessions            map[string]fosite.AuthorizeRequester
 	invalidDev             map[string]fosite.DeviceRequester
+}
+
+// asStore exposes the snapshot's tables as a MemoryStore (sharing the maps) so that store methods can be applied to it.
+func (sn *snapshot) asStore() *storage.MemoryStore {
+	return &storage.MemoryStore{Clients: map[string]fosite.Client{}, AuthorizeCodes: sn.AuthorizeCodes, IDSessions: sn.IDSessions, AccessTokens: sn.AccessTokens,
+		RefreshTokens: sn.RefreshTokens, DeviceAuths: sn.DeviceAuths, PKCES: sn.PKCES, Users: map[string]storage.MemoryUserRelation{}, BlacklistedJTIs: sn.BlacklistedJTIs,
+		AccessTokenRequestIDs: sn.AccessTokenRequestIDs, RefreshTokenRequestIDs: sn.RefreshTokenRequestIDs, DeviceCodesRequestIDs: sn.DeviceCodesRequestIDs,
+		UserCodesRequestIDs: sn.UserCodesRequestIDs, IssuerPublicKeys: map[string]storage.IssuerPublicKeys{}, PARSessions: sn.PARSessions}
 }
 
 func cpMap[K comparable, V any](m map[K]V) map[K]V {
@@ -787,11 +823,13 @@ func (s TxStore) BeginTX(ctx context.Context) (context.Context, error) {
 		s.TxEvents = append(s.TxEvents, "begin-nested")
 	}
 	s.txOpen = true
+	s.txID = new(int)
+	id := s.txID
 	s.TxEvents = append(s.TxEvents, "begin")
 	s.mu.Unlock()
 	s.txSnap = s.Snapshot()
 	s.leave(c, nil)
-	return ctx, nil
+	return context.WithValue(ctx, txKey, id), nil
 }
 
 func (s TxStore) Commit(ctx context.Context) error {
